@@ -12,7 +12,7 @@ import (
 )
 
 // Area `trace`: the WHOLE text of Detail(trim) / %v / %+v over real frames, compared with the Lean transcription of
-// StackTrace (Model/ErrsTrace.lean: frame loop, filter, file shortening, 512-entry buffer, Caused-by recursion).
+// StackTrace (Model/ErrsTrace.lean: frame loop, filter, file shortening, callStack's buffer, Caused-by recursion).
 //
 // The model needs the frames as input.  They are taken INDEPENDENTLY of the library: every constructor call sits on the
 // same source line as a call of site(), which records what runtime.Callers sees there (function, file, line of every
@@ -82,8 +82,28 @@ func tAppendAcc(c error) error { site(); return errs.Append(c) }
 func tAppendArg(c error) error { site(); return errs.Append(nil, c) }
 
 //go:noinline
+func tPanic(c error) { site(); panic(c) }
+
+// tRecover panics with c under errs.Recovery and returns what the handler received.  The recorded stack is
+// errs.Recovery, runtime.gopanic, and then the stack of the panicking function (site() on the line of the panic).
+//
+//go:noinline
+func tRecover(c error) (got error) {
+	if c == nil {
+		return nil // panic(nil) is a runtime.PanicNilError of its own: not exercised
+	}
+	func() {
+		defer errs.Recovery(func(err error) { got = err })
+		tPanic(c)
+	}()
+	return got
+}
+
+//go:noinline
 func construct(ctor, msg string, c error) error {
 	switch ctor {
+	case "recover":
+		return tRecover(c)
 	case "new":
 		return tNew(msg)
 	case "newf":
@@ -161,12 +181,12 @@ var probes = map[string]func(func() error) error{
 	"lpA": lpA, "lpObj": lpObj, "lpZzz": lpZzz, "lpOther": lpOther, "lpNoDot": lpNoDot, "lpRoot": lpRoot, "lpDotDir": lpDotDir,
 	"lpRootObj": lpRootObj, "lpObjObj": lpObjObj, "lpRel": lpRel, "lpRelDeep": lpRelDeep, "lpHidden": lpHidden, "lpUni": lpUni,
 	"lpMainDot": lpMainDot, "lpTrail": lpTrail, "lpObjOnly": lpObjOnly, "lpDouble": lpDouble, "lpObjFile": lpObjFile,
-	"lpTwoDots": lpTwoDots,
+	"lpTwoDots": lpTwoDots, "lpInner": lpInner, "lpTestmain": lpTestmain,
 }
 
 var probeNames = []string{"plain", "ptr", "val", "generic", "closure", "main", "lpA", "lpObj", "lpZzz", "lpOther", "lpNoDot",
 	"lpRoot", "lpDotDir", "lpRootObj", "lpObjObj", "lpRel", "lpRelDeep", "lpHidden", "lpUni", "lpMainDot", "lpTrail",
-	"lpObjOnly", "lpDouble", "lpObjFile", "lpTwoDots"}
+	"lpObjOnly", "lpDouble", "lpObjFile", "lpTwoDots", "lpInner", "lpTestmain"}
 
 type tlevel struct {
 	ctor, probe, msg string
@@ -195,11 +215,15 @@ func runLevel(lv tlevel, cur error) (res error, st []tframe, panicked bool) {
 	return res, st, panicked
 }
 
-// libFrames returns the leading frames of the recorded stack that lie inside the library.
+// libFrames returns the leading frames of the recorded stack that lie inside the library (plus runtime.gopanic after them).
 func libFrames(e *errs.Error) []tframe {
 	all := symbolise(e.RawStackTrace())
 	k := 0
 	for k < len(all) && strings.HasPrefix(all[k].fn, errsPkg) {
+		k++
+	}
+	// an error made inside errs.Recovery: the runtime's panic machinery sits between the library and the panicking function
+	for k > 0 && k < len(all) && all[k].fn == "runtime.gopanic" {
 		k++
 	}
 	return all[:k]
@@ -244,7 +268,25 @@ func decPrefixes(w string) []string {
 
 type traceArea struct{}
 
-var defaultPrefixes = []string{"runtime.", "testing.", errsPkg}
+// stackBuf is the size of the library's callStack buffer, MEASURED (not read from the source): the number of entries an
+// error records when it is created under a stack far deeper than any buffer one would choose.  It is written into every
+// line (`B<n>`), and the model cuts the recorded stack there.
+var stackBuf = 0
+
+const veryDeep = 20000
+
+func measureBuffer() int {
+	if stackBuf == 0 {
+		res, _, _ := runLevel(tlevel{"new", "plain", "m", veryDeep}, nil)
+		if e, ok := res.(*errs.Error); ok && e != nil {
+			stackBuf = len(e.RawStackTrace())
+		}
+	}
+	return stackBuf
+}
+
+// the library's ACTUAL default filter list (read from the variable at start-up, not copied)
+var defaultPrefixes = append([]string(nil), errs.RuntimePrefixesToFilter...)
 
 var prefixSets = [][]string{
 	defaultPrefixes, defaultPrefixes, defaultPrefixes, defaultPrefixes,
@@ -275,6 +317,8 @@ func (traceArea) emitLine(trim bool, prefixes []string, extra int, lvs []tlevel,
 	sb.WriteString(encPrefixes(prefixes))
 	sb.WriteByte(' ')
 	sb.WriteString(strconv.Itoa(extra))
+	sb.WriteString(" B" + strconv.Itoa(measureBuffer()))
+	sb.WriteString(" R" + hx.Hex([]byte(recoveryMessage)))
 	var cur error
 	for _, lv := range lvs {
 		res, st, _ := runLevel(lv, cur)
@@ -290,7 +334,7 @@ func (traceArea) emitLine(trim bool, prefixes []string, extra int, lvs []tlevel,
 }
 
 var startCtors = []string{"new", "new", "newf", "plain", "plain", "nil", "tnil", "fnil"}
-var nextCtors = []string{"cause", "cause", "causef", "wrap", "wraptyped", "fwrap", "appendacc", "appendarg", "cause"}
+var nextCtors = []string{"cause", "cause", "causef", "wrap", "wraptyped", "fwrap", "appendacc", "appendarg", "cause", "recover"}
 
 func (a traceArea) Gen(r *hx.Rng, n int, tier string, emit func(string)) {
 	lines := 0
@@ -308,17 +352,19 @@ func (a traceArea) Gen(r *hx.Rng, n int, tier string, emit func(string)) {
 			out(trim, ps, 0, tlevel{"plain", "plain", "p", 0}, tlevel{"appendacc", "ptr", "", 0})
 			out(trim, ps, 0, tlevel{"new", "main", "", 0})
 		}
-		for _, c := range []string{"new", "newf", "cause", "causef", "wrap", "wraptyped", "appendacc", "appendarg"} {
+		for _, c := range []string{"new", "newf", "cause", "causef", "wrap", "wraptyped", "appendacc", "appendarg", "recover"} {
 			out(trim, defaultPrefixes, 0, tlevel{"plain", "plain", "inner", 0}, tlevel{c, "lpZzz", "outer", 2})
 			out(trim, defaultPrefixes, 2, tlevel{"new", "lpRel", "inner", 0}, tlevel{c, "lpDouble", "outer", 0})
 			out(trim, defaultPrefixes, 0, tlevel{"new", "val", "", 0}, tlevel{"fwrap", "plain", "fw", 0}, tlevel{c, "generic", "", 0})
 			out(trim, defaultPrefixes, 0, tlevel{"tnil", "plain", "", 0}, tlevel{c, "closure", "", 0})
 		}
-		// around the 512-entry buffer of callStack (the trampoline adds a handful of frames)
-		for _, d := range []int{495, 500, 503, 504, 505, 506, 507, 508, 509, 510, 511, 512, 513, 600} {
-			out(trim, defaultPrefixes, 0, tlevel{"new", "lpObj", "deep", d})
+		// around the buffer of callStack (the trampoline adds a handful of frames)
+		if b := measureBuffer(); b >= 32 && b <= 4096 {
+			for _, d := range []int{-17, -12, -9, -8, -7, -6, -5, -4, -3, -2, -1, 0, 1, 88} {
+				out(trim, defaultPrefixes, 0, tlevel{"new", "lpObj", "deep", b + d})
+			}
+			out(trim, defaultPrefixes, 0, tlevel{"newf", "lpObj", "deep", b - 7}, tlevel{"causef", "plain", "outer", b - 6})
 		}
-		out(trim, defaultPrefixes, 0, tlevel{"newf", "lpObj", "deep", 505}, tlevel{"causef", "plain", "outer", 506})
 	}
 	if tier == "thorough" {
 		out(true, defaultPrefixes, 0, tlevel{"new", "plain", "very deep", 3000})
@@ -334,8 +380,8 @@ func (a traceArea) Gen(r *hx.Rng, n int, tier string, emit func(string)) {
 				c = hx.Pick(r, startCtors)
 			}
 			d := r.Intn(4)
-			if r.Chance(1, 60) {
-				d = r.Range(495, 515)
+			if b := measureBuffer(); r.Chance(1, 60) && b >= 32 && b <= 4096 {
+				d = r.Range(b-17, b+3)
 			}
 			lvs = append(lvs, tlevel{c, hx.Pick(r, probeNames), hx.Pick(r, traceMsgs), d})
 		}
@@ -349,14 +395,14 @@ func (a traceArea) Gen(r *hx.Rng, n int, tier string, emit func(string)) {
 
 func (traceArea) Run(line string) string {
 	f := strings.Fields(line)
-	if len(f) < 4 || f[0] != "trace" {
+	if len(f) < 6 || f[0] != "trace" || !strings.HasPrefix(f[4], "B") || !strings.HasPrefix(f[5], "R") {
 		return "bad-op"
 	}
 	trim := f[1] == "1"
 	prefixes := decPrefixes(f[2])
 	extra := hx.Atoi(f[3])
 	var cur error
-	for _, w := range f[4:] {
+	for _, w := range f[6:] {
 		p := strings.Split(w, ":")
 		if len(p) != 6 {
 			return "bad-op"
